@@ -261,7 +261,8 @@ def _get_unused_imports(ast_tree: ast.Module) -> Collection[str]:
             full_name = re.sub(r"\.[^\.]*$", "", full_name)
             names.add(full_name)
 
-    return imports - names
+    # A star import binds names that cannot be known here, so it is never unused
+    return imports - names - {"*"}
 
 
 def _get_unused_imports_split(
